@@ -37,6 +37,7 @@ type static struct {
 	dual            bool
 	final           [2]string
 	nEdits          int
+	longLines       int
 }
 
 type fileVersion struct {
@@ -120,6 +121,12 @@ func (s *static) genLeaseFile(t *simrt.Tape, v6 bool, bad bool) (string, map[str
 		}
 		if t.Draw(6) == 0 {
 			emit("")
+		}
+		if t.Draw(12) == 0 {
+			// a very long comment line (around the 4 KiB and 64 KiB marks line-oriented readers trip over)
+			n := []int{4095, 4096, 65534, 65535, 65536, 70000, 140000}[t.Pick(7)]
+			emit("#" + strings.Repeat("x", n-1))
+			s.longLines++
 		}
 		if i == badAt {
 			hw := s.macs[t.Pick(len(s.macs))]
@@ -722,6 +729,9 @@ func (s *static) OnReply(w *World, dg *DG, r *Reply) {
 
 func (s *static) Finish(w *World) {
 	s.scan(w)
+	if s.longLines > 0 {
+		w.Probe("file.very_long_comment_line")
+	}
 	for p := 0; p < 2; p++ {
 		if !s.has[p] || !s.auto[p] || len(s.versions[p]) == 0 || s.lastMod[p] == 0 {
 			continue
